@@ -163,6 +163,38 @@ def run(ctx, R, tier):
             R.check(pa == pv == pk, "C01-R2", "%s|pre-conversion" % name, "pre-conversion of unsupported types is applied to results, vargs and kwargs alike", m["dumpsCall"].loc(),
                     "convert_obj_into_marshallable applied to: result=%s vargs=%s kwargs=%s" % (pa, pv, pk))
 
+    # ---------------------------------------------------------------- R8
+    R.rule("C01-R8", "isinstance dispatch chains of the type mappers test a subtype before its supertype", floor=3)
+    SUBTYPE = {("datetime.datetime", "datetime.date"), ("decimal.Decimal", "numbers.Number"), ("complex", "numbers.Number"), ("bool", "int"),
+               ("int", "numbers.Number"), ("float", "numbers.Number"), ("bytearray", "bytes"), ("frozenset", "set")}
+    for fq in ("Pyro5.serializers.JsonSerializer.default", "Pyro5.serializers.MsgpackSerializer.default", "Pyro5.serializers.MarshalSerializer.convert_obj_into_marshallable"):
+        g = ctx.fn(fq)
+        chain = []
+        from ..engine.guards import strip_not
+        for st in g.node.body:
+            core, pol = strip_not(st.test) if isinstance(st, ast.If) else (None, True)
+            if isinstance(st, ast.If) and isinstance(core, ast.Call) and unparse(core.func) == "isinstance" and len(core.args) == 2:
+                t = core.args[1]
+                branch = st.body if pol else st.orelse
+                names = [dotted(x) for x in (t.elts if isinstance(t, ast.Tuple) else [t])]
+                if isinstance(t, ast.Name) and t.id in {n.targets[0].id for n in walk_no_nested(g.node) if isinstance(n, ast.Assign) and isinstance(n.targets[0], ast.Name)}:
+                    for n in walk_no_nested(g.node):
+                        if isinstance(n, ast.Assign) and isinstance(n.targets[0], ast.Name) and n.targets[0].id == t.id and isinstance(n.value, ast.Tuple):
+                            names = [dotted(x) for x in n.value.elts]
+                ends = bool(branch) and isinstance(branch[-1], (ast.Return, ast.Raise))
+                chain.append((names, st, ends))
+        bad = None
+        for i, (ni, si, ei) in enumerate(chain):
+            if not ei:
+                continue
+            for nj, sj, _ in chain[i + 1:]:
+                for a in nj:
+                    for b in ni:
+                        if (a, b) in SUBTYPE:
+                            bad = (a, b, sj)
+        R.check(bad is None and len(chain) >= 2, "C01-R8", "%s|dispatch-order" % fq.split(".", 2)[2], "no branch for a subtype comes after a returning branch for its supertype (%d branches)" % len(chain),
+                g.loc(), ("the branch for %s comes after the branch for %s, which already matches it: values of that type take the wrong mapping" % (bad[0], bad[1])) if bad else "dispatch chain vanished")
+
     # ---------------------------------------------------------------- R7
     R.rule("C01-R7", "the call envelope (object, method, vargs, kwargs) is written by dumpsCall and read by loadsCall in the same order / under the same keys", floor=4)
     for c in sorted(sers, key=lambda c: c.name):
